@@ -1,11 +1,14 @@
 package main
 
 import (
+	"bytes"
 	"fmt"
 	"math/rand"
 	"strconv"
 	"strings"
 
+	"github.com/golang/snappy"
+	"github.com/samaritan-proxy/samaritan/host"
 	pbredis "github.com/samaritan-proxy/samaritan/pb/config/protocol/redis"
 	"github.com/samaritan-proxy/samaritan/proc/redis"
 
@@ -16,6 +19,8 @@ import (
 //
 //	c18.step <nhosts> <node reply value> <cursor hex> [more args hex…]
 //	   -> local <reply> | fwd <host index> <forwarded body> <final reply>|panic
+//	c18.stepz …            the same on a processor whose configuration has a compression section (disabled): key names
+//	                       in a SCAN reply are names, not values, and come back as the node sent them
 //	c18.iter <script>      script: nodes separated by ';', entries ask>next separated by ','
 //	   -> <reached 0> <client cursors hex,…> <keys hex,…>
 type c18 struct{}
@@ -29,6 +34,35 @@ func (c18) Rule() string {
 }
 
 var rigCache = map[int]*redis.VerifRig{}
+var rigCacheZ = map[int]*redis.VerifRig{}
+
+// cachedRigZ: like cachedRig, with a compression section in the configuration.
+func cachedRigZ(n int) (*redis.VerifRig, func()) {
+	if r, ok := rigCacheZ[n]; ok {
+		return r, func() {}
+	}
+	var hosts []*host.Host
+	var addrs []string
+	for i := 0; i < n; i++ {
+		hosts = append(hosts, host.New(hx.NodeAddr(i)))
+		addrs = append(addrs, hx.NodeAddr(i))
+	}
+	r := redis.VerifNewRig(fmt.Sprintf("c18z-%d", n), hx.RedisConfig(pbredis.ReadStrategy_MASTER, &pbredis.Compression{Enable: false, Threshold: 1}), hosts, addrs)
+	if n <= 16 {
+		rigCacheZ[n] = r
+		return r, func() {}
+	}
+	return r, func() { hx.DropScopes(r.ScopeName()) }
+}
+
+// frameOf is a complete compression frame of v: a key may be named like that.
+func frameOf(v []byte) []byte {
+	var fb bytes.Buffer
+	w := snappy.NewBufferedWriter(&fb)
+	w.Write(v)
+	w.Close()
+	return append([]byte("(P$\x00\r\n"), fb.Bytes()...)
+}
 
 // cachedRig reuses one socket-less processor per small host count (SCAN keeps no state in it); a processor with hundreds of
 // hosts is built for the op and released afterwards (release: the func returned).
@@ -65,6 +99,13 @@ func scanOnce(rig *redis.VerifRig, args [][]byte, nodeReply func(idx int, body *
 		return "local", 0, nil, raw.Response(), ""
 	}
 	s := sent[0]
+	// the backend connection's filter chain, as client.loopWrite runs it before encoding the request
+	if !s.Filter() {
+		if !raw.Done() {
+			return "hang", 0, nil, nil, ""
+		}
+		return "local", 0, nil, raw.Response(), ""
+	}
 	idx = nodeIndex(s.Addr)
 	// copy the forwarded body now (the request body is shared with the raw request)
 	b := *s.Body()
@@ -84,7 +125,7 @@ func scanOnce(rig *redis.VerifRig, args [][]byte, nodeReply func(idx int, body *
 func (c18) Exec(op string) string {
 	f := hx.Fields(op)
 	switch {
-	case len(f) >= 3 && f[0] == "c18.step":
+	case len(f) >= 3 && (f[0] == "c18.step" || f[0] == "c18.stepz"):
 		n, err := strconv.Atoi(f[1])
 		if err != nil {
 			return "bad-op"
@@ -102,6 +143,9 @@ func (c18) Exec(op string) string {
 			args = append(args, b)
 		}
 		rig, release := cachedRig(n)
+		if f[0] == "c18.stepz" {
+			rig, release = cachedRigZ(n)
+		}
 		defer release()
 		kind, idx, body, resp, pan := scanOnce(rig, args, func(int, *redis.RespValue) *redis.RespValue { return reply })
 		switch {
@@ -265,6 +309,15 @@ func (c18) Gen(r *hx.Run) {
 			rep = "[b" + h(strconv.FormatUint(genNodeCursor(rng), 10)) + ",[b" + h("key") + "]]"
 		}
 		r.Do(fmt.Sprintf("c18.step %d %s %s", n, rep, strings.Join(args, " ")), cur != "0", "step")
+		if i%4 == 0 {
+			// a key whose name is a complete compression frame, on a processor with a compression section
+			fr := frameOf([]byte(fmt.Sprintf("another-key-%d", rng.Intn(1000))))
+			repz := "[b" + h(strconv.FormatUint(genNodeCursor(rng), 10)) + ",[b" + h("key") + ",b" + hx.Hex(fr) + "]]"
+			if n > 16 {
+				n = 3
+			}
+			r.Do(fmt.Sprintf("c18.stepz %d %s %s", n, repz, strings.Join(args, " ")), true, "step-frame-named-key")
+		}
 	}
 	// `SCAN` without a cursor
 	r.Do("c18.step 3 n", true, "step-noargs")
